@@ -590,6 +590,17 @@ class FunctionAnalysis:
         every disjunct implies a disjunct of C those origins are removed."""
         stale = st.get(STALE, frozenset())
         if label == "T":
+            # `isinstance(x, dict|list|set|tuple)` among the conjuncts of the test types a local of unknown kind on the true
+            # edge, so that `x.copy()` there is the container's shallow copy and not a repository class's deep one
+            for cj in self._conj(ifnode.test):
+                if isinstance(cj, ast.Call) and A.call_name(cj) == "isinstance" and len(cj.args) == 2 \
+                        and isinstance(cj.args[0], ast.Name) and isinstance(cj.args[1], ast.Name) \
+                        and cj.args[1].id in ("dict", "list", "set", "tuple") and cj.args[0].id in st \
+                        and isinstance(st[cj.args[0].id], Val):
+                    v_ = st[cj.args[0].id]
+                    kind_ = "list" if cj.args[1].id == "tuple" else cj.args[1].id
+                    if kind_ not in v_.k:
+                        st[cj.args[0].id] = Val(v_.o, set(v_.k) | {kind_})
             if stale:
                 d2 = self._disj(ifnode.test)
                 new = set()
